@@ -599,6 +599,8 @@ func oracleC07asa(c *Case) Verdict {
 	sc := asam.ScopeOf(r.b)
 	prot := r.a.Protected(sc)
 	frame := r.a.FrameText(sc)
+	vpnFrame := r.a.VPNFrameOf(sc)
+	vpnBefore := vpnFrame.Text(r.a)
 	keys := make([]string, 0, len(prot))
 	for k := range prot {
 		keys = append(keys, k)
@@ -631,6 +633,14 @@ func oracleC07asa(c *Case) Verdict {
 		if f := st.FrameText(sc); f != frame {
 			return fail("asa:frame-changed", "step %d (%s) changes unmanaged bindings/routes/lines\n--- before\n%s\n--- after\n%s\n%s",
 				i+1, strings.Join(r.steps[i], " \\N "), frame, f, ctx())
+		}
+		if f := vpnFrame.Text(st); f != vpnBefore {
+			if shared, which := vpnFrame.SharedChanged(r.a, st); shared {
+				return fail("asa:F3-vpn-object-shared-with-unmanaged-object-edited-in-place", "step %d (%s) changes %v, used by a managed anchor and by an object outside Netspoc's scope\n--- before\n%s\n--- after\n%s\n%s",
+					i+1, strings.Join(r.steps[i], " \\N "), which, vpnBefore, f, ctx())
+			}
+			return fail("asa:vpn-frame-changed", "step %d (%s) changes VPN objects outside Netspoc's scope\n--- before\n%s\n--- after\n%s\n%s",
+				i+1, strings.Join(r.steps[i], " \\N "), vpnBefore, f, ctx())
 		}
 	}
 	nt := len(r.steps) > 0 && len(keys) > 0
